@@ -175,9 +175,11 @@ func c18Menu() []c18Dev {
 		m = append(m, c18Dev{Aspect: "status", Value: st})
 	}
 	hvals := map[string][]string{
-		"Location":              {"<absent>", "", "::garbage::%zz", "http://[::1", "/v2/r/blobs/uploads/!!!", "//other.example/x?y", strings.Repeat("/a", 3000)},
-		"Range":                 {"<absent>", "", "garbage", "0-99999999999999999999", "-1-5", "5-1", "0-", "1-0"},
-		"Content-Range":         {"<absent>", "", "garbage", "bytes 0-1/", "bytes 0-1/-5", "bytes 0-1/99999999999999999999", "bytes 3-1/2", "/"},
+		"Location": {"<absent>", "", "::garbage::%zz", "http://[::1", "/v2/r/blobs/uploads/!!!", "//other.example/x?y", strings.Repeat("/a", 3000)},
+		"Range":    {"<absent>", "", "garbage", "0-99999999999999999999", "-1-5", "5-1", "0-", "1-0"},
+		"Content-Range": {"<absent>", "", "garbage", "bytes 0-1/", "bytes 0-1/-5", "bytes 0-1/99999999999999999999", "bytes 3-1/2", "/",
+			// prefixes and fragments of the grammar: every place a parser may cut
+			"bytes", "bytes ", "bytes/", "bytes/11", "bytes /5", "bytes 0", "bytes 0-", "bytes -1/5", "bytes 0-1", "bytes */5", "0-1/5", "bytes  0-1/5", "BYTES 0-1/5"},
 		"Content-Length":        {"<absent>", "0", "1", "99999"},
 		"Docker-Content-Digest": {"<absent>", "", "garbage", "sha256:xyz", "sha256:", ":", "sha512:" + strings.Repeat("a", 128), "md5:abc"},
 		"Link": {"<absent>", "", "garbage", "<", "<>", "</v2/_catalog?n=1&last=a>; rel=\"next\"", "<http://[::1>; rel=next", "<%zz>",
